@@ -145,6 +145,36 @@ def _is_tag_only_line(line: str) -> bool:
     return starts_tag and ends_tag
 
 
+_fence_re: re.Pattern[str] = re.compile(r"^ {0,3}(`{3,}|~{3,})(.*)$")
+
+
+def _fenced_code_line_flags(lines: list[str]) -> list[bool]:
+    """
+    For each line, whether it belongs to a top-level fenced code block (the fence lines
+    included). Only unindented fences matter here because tag-only lines are unindented.
+    """
+    flags: list[bool] = []
+    fence: str | None = None
+    for line in lines:
+        match = _fence_re.match(line)
+        if fence is None:
+            if match and not (match.group(1)[0] == "`" and "`" in match.group(2)):
+                fence = match.group(1)
+                flags.append(True)
+            else:
+                flags.append(False)
+        else:
+            flags.append(True)
+            if (
+                match
+                and match.group(1)[0] == fence[0]
+                and len(match.group(1)) >= len(fence)
+                and not match.group(2).strip()
+            ):
+                fence = None
+    return flags
+
+
 def preprocess_tag_block_spacing(text: str) -> str:
     """
     Preprocess text to ensure proper blank lines around block content within tags.
@@ -178,9 +208,12 @@ def preprocess_tag_block_spacing(text: str) -> str:
     if not has_tag_only_lines:
         return text
 
+    # Lines inside fenced code blocks are code, not tags or block content.
+    in_code = _fenced_code_line_flags(lines)
+
     for i, line in enumerate(lines):
         # Check if we need to add a blank line BEFORE this line
-        if i > 0:
+        if i > 0 and not (in_code[i] and in_code[i - 1]):
             prev_line = lines[i - 1]
             prev_is_empty = prev_line.strip() == ""
 
